@@ -121,7 +121,7 @@ def invariants(col) -> bool:
 
 OPS = ["set_member", "__setitem__", "del_member", "__delitem__", "get_member", "__getitem__"]
 RECV = ["m", "C", "col"]
-VALS = ["function", "alias_f", "alias_self", "alias_missing", "class"]
+VALS = ["function", "alias_f", "alias_self", "alias_resolved", "alias_missing", "class"]
 
 
 def _key(form, recv, s1, s2, s3):
@@ -138,7 +138,7 @@ def _shards():
         for recv in RECV:
             for form in forms:
                 cases = []
-                for val in (tiered(VALS[:3], VALS) if op in ("set_member", "__setitem__") else ["function"]):
+                for val in (tiered(VALS[:4], VALS) if op in ("set_member", "__setitem__") else ["function"]):
                     d = dict(op=op, recv=recv, form=form, val=val)
                     if form in ("s1",):
                         d.update(s2="z", s3="z")
@@ -155,7 +155,7 @@ def _shards():
     drives=[SetMembersMixin.set_member, SetMembersMixin.__setitem__, DelMembersMixin.del_member, DelMembersMixin.__delitem__, GetMembersMixin.get_member, GetMembersMixin.__getitem__, _get_parts,
             Alias.target.fget, Alias.target.fset, Alias.resolve_target, Alias._update_target_aliases],
     bounds={"pre-state": "collection{m{f, C{x, k}, a->m.f, b->m.C}, n{g, r->m.C.x, s->m.a}}, each alias resolved or not", "operation": OPS, "receiver": "module m, class C, or the collection (key prefixed with 'm')",
-            "key": "dotted string of 1..2 (thorough: 3) segments, or a 2-tuple; every segment a symbolic string: one of 'f','C','x','b','z' or empty", "value": tiered(VALS[:3], VALS), "quick restriction": "aliases a and b resolved together"},
+            "key": "dotted string of 1..2 (thorough: 3) segments, or a 2-tuple; every segment a symbolic string: one of 'f','C','x','b','z' or empty", "value": tiered(VALS[:4], VALS), "quick restriction": "aliases a and b resolved together"},
     value_symbolic=["key segments s1,s2,s3", "which aliases are already resolved (ra, rb, rr)"], selectors=["operation, receiver, key form, kind of inserted value (driver-bound)"],
     stubs=STUBS, must_cover=["set-ok", "del-ok", "get-ok", "clean-error", "aliases-followed-replacement", "alias-registered"],
     grid=lambda seed: [dict(op=o, recv="m", form="s1", val="function", s1=k, s2="z", s3="z", ra=True, rb=True, rr=True) for o in OPS for k in ("f", "z", "C")],
@@ -178,6 +178,9 @@ def one_step(op: str, recv: str, form: str, val: str, s1: str, s2: str, s3: str,
             value = Class(name, lineno=20, endlineno=21)
         elif val == "alias_f":
             value = Alias(name, "m.f", lineno=20, endlineno=20)
+        elif val == "alias_resolved":
+            # an alias created with its target OBJECT (already resolved) and no parent yet, as extension code does; it is attached afterwards
+            value = Alias(name, m.members["f"], lineno=20, endlineno=20)
         elif val == "alias_missing":
             value = Alias(name, "q.z", lineno=20, endlineno=20)
         else:  # an alias whose target path is the very path it is inserted at
